@@ -13,7 +13,8 @@ restart at any time), `c : Cfg` any configuration.
 namespace C15
 
 /-- the closed-system version of `demoOps`: requests 0,1 answered in reverse order; requests 2,3
-    accepted, 3 answered, flush, restart, late answer for 2 (dropped), request 4 served -/
+    accepted, 3 answered, flush (the response to 1, still waiting in the Top port, is dropped with
+    the port's outgoing buffer: repair 7c2f5a70), restart, late answer for 2 (dropped), request 4 served -/
 def demoEvs : List Ev :=
   [.arrive (demoReq 0 false), .arrive (demoReq 64 true), .tick, .tick, .memTake, .memTake,
    .memAnswer 1 .done, .memAnswer 0 (.data [9, 9, 9, 9]), .tick, .tick, .tick, .takeRsp,
@@ -63,7 +64,8 @@ theorem closed_system_is_a_run (c : Cfg) (evs more : List Ev) :
   exact ⟨later, h1, by rw [← h2]; simp [sysRun, List.foldl_append]⟩
 
 example : (sysRun demoCfg demoEvs).rob.accepted = [0, 1, 2, 3, 4] ∧
-    (sysRun demoCfg demoEvs).out.map (·.rspTo) = [0, 1, 4] ∧
+    (sysRun demoCfg demoEvs).rob.delivered.map (·.rspTo) = [0, 1, 4] ∧
+    (sysRun demoCfg demoEvs).out.map (·.rspTo) = [0, 4] ∧
     (sysRun demoCfg demoEvs).rob.discarded = [2, 3] ∧ (sysRun demoCfg demoEvs).mem = [] := by decide
 
 /-- **Refinement.** For every configuration and every event list, the ROB composed with an
@@ -71,13 +73,14 @@ example : (sysRun demoCfg demoEvs).rob.accepted = [0, 1, 2, 3, 4] ∧
     accepted requests; the lower level answers any unanswered pending request; only the head
     responds, with the request's own id, to its sender, with the stored payload; flush empties
     the FIFO): the abstraction of the state after `evs` is reachable in the specification, every
-    continuation `more` is again a specification run from there, and the specification's output
-    history is exactly the traffic of the Top port (what the requester took, then what still
-    waits in the port's outgoing buffer). -/
+    continuation `more` is again a specification run from there, and what the requester took
+    followed by what still waits in the Top port's outgoing buffer is a subsequence of the
+    specification's output history (everything but the responses a flush removed from that
+    buffer: repair 7c2f5a70). -/
 theorem rob_refines_fifo (c : Cfg) (evs more : List Ev) :
     Spec.Star c.cap {} (sysRun c evs).rob.abs ∧
     Spec.Star c.cap (sysRun c evs).rob.abs (sysRun c (evs ++ more)).rob.abs ∧
-    (sysRun c evs).rob.abs.out = (sysRun c evs).out ++ (sysRun c evs).rob.topOut := by
+    ((sysRun c evs).out ++ (sysRun c evs).rob.topOut).Sublist (sysRun c evs).rob.abs.out := by
   refine ⟨sysFold_refines c evs {} (sinv_init c), ?_, (sysRun_ok c evs).outLog⟩
   have : sysRun c (evs ++ more) = more.foldl (sysStep c) (sysRun c evs) := by
     simp [sysRun, List.foldl_append]
@@ -134,7 +137,7 @@ theorem sys_response_is_the_answer (c : Cfg) (evs : List Ev) :
       ∀ p', (b.id, p') ∈ σ.rob.answered → p' = d.payload := by
   intro σ d hd
   have g := spec_good c.cap σ.rob.abs (rob_refines_fifo c evs []).1
-  rw [← (rob_refines_fifo c evs []).2.2] at hd
+  have hd : d ∈ σ.rob.abs.out := (rob_refines_fifo c evs []).2.2.subset hd
   obtain ⟨r, b, h1, h2, h3, h4⟩ := g.outOk d hd
   refine ⟨r, b, h1, g.fields _ h1, h2, h3, h4, ?_⟩
   intro p' hp'
@@ -154,7 +157,7 @@ theorem sys_response_is_the_answer (c : Cfg) (evs : List Ev) :
   exact key _ hnd _ _ _ hp' h4
 
 example : (sysRun demoCfg demoEvs).out =
-    [⟨0, 2, .data [9, 9, 9, 9]⟩, ⟨1, 2, .done⟩, ⟨4, 2, .data [6]⟩] ∧
+    [⟨0, 2, .data [9, 9, 9, 9]⟩, ⟨4, 2, .data [6]⟩] ∧
     (sysRun demoCfg demoEvs).rob.answered = [(1, .done), (0, .data [9, 9, 9, 9]), (3, .data [7]), (4, .data [6])] := by
   decide
 
@@ -210,20 +213,23 @@ example : ((sysRun demoCfg demoEvs).rob.fwd.map (·.1.cwc)) = [true, true, true,
 /-! ## Flush / restart -/
 
 /-- **Empty while flushing.** From the acknowledgement of a flush until a restart is processed
-    the transaction list and the lookup table are empty, and a tick that ends in the flushing
-    state moves no message: nothing is sent up, nothing is forwarded, no lower-level response is
-    consumed (only the control port is served). -/
+    the transaction list, the lookup table and (repair 7c2f5a70) the outgoing buffers of the Top
+    and Bottom ports are empty, and a tick that ends in the flushing state sends nothing up,
+    forwards nothing and consumes no lower-level response (only the control port is served). -/
 theorem flushing_is_empty_and_silent (c : Cfg) (evs : List Ev) :
     let s := (sysRun c evs).rob
-    (s.flushing = true → s.txs = [] ∧ s.table = []) ∧
+    (s.flushing = true → s.txs = [] ∧ s.table = [] ∧ s.topOut = [] ∧ s.botOut = []) ∧
     ((tick c s).1.flushing = true → (tick c s).1.traffic = s.traffic) := by
   intro s
   refine ⟨fun hf => ?_, tick_flushing_silent c s⟩
   have h := sysRun_ok c evs
   have ht := h.flushEmpty hf
-  exact ⟨ht, by rw [h.inv.table, ht]; rfl⟩
+  have ho := sysRun_flushOut c evs hf
+  exact ⟨ht, by rw [h.inv.table, ht]; rfl, ho.1, ho.2⟩
 
 example : (sysRun demoCfg (demoEvs.take 22)).rob.flushing = true ∧
+    (sysRun demoCfg (demoEvs.take 21)).rob.topOut.length = 1 ∧
+    (sysRun demoCfg (demoEvs.take 22)).rob.topOut = [] ∧
     (sysRun demoCfg (demoEvs.take 21)).rob.txs.length = 2 ∧
     (sysRun demoCfg (demoEvs.take 22)).rob.txs = [] := by decide
 
@@ -239,13 +245,14 @@ theorem sys_flush_discards (c : Cfg) (evs more : List Ev) :
   obtain ⟨ops, later, h1, h2⟩ := closed_system_is_a_run c evs more
   have := flush_discards c ops later
   rw [← h1, ← h2] at this
-  rw [← (sysRun_ok c (evs ++ more)).outLog]
-  exact this
+  refine ⟨fun a ha hm => this.1 a ha ?_, this.2⟩
+  obtain ⟨d, hd, rfl⟩ := List.mem_map.1 hm
+  exact List.mem_map.2 ⟨d, (sysRun_ok c (evs ++ more)).outLog.subset hd, rfl⟩
 
 example : (sysRun demoCfg (demoEvs.take 22)).rob.discardedBot = [2, 3] ∧
     (sysRun demoCfg (demoEvs.take 26)).rob.botIn = [(2, .data [5])] ∧
     (sysRun demoCfg (demoEvs.take 28)).rob.botIn = [] ∧
-    (sysRun demoCfg demoEvs).out.map (·.rspTo) = [0, 1, 4] := by decide
+    (sysRun demoCfg demoEvs).out.map (·.rspTo) = [0, 4] := by decide
 
 /-- **Later traffic is served normally.** From any point at which the buffer is empty — in
     particular right after a flush or a restart was processed (`flush_empties`,
@@ -273,71 +280,34 @@ example : (sysRun demoCfg (demoEvs.take 25)).rob.txs = [] ∧
     (sysRun demoCfg demoEvs).rob.delivered.map (·.rspTo) = [0, 1, 4] ∧
     (sysRun demoCfg demoEvs).rob.fwd.map (·.1.id) = [0, 1, 2, 3, 4] := by decide
 
-/-- the stronger reading "once a flush is acknowledged, no response to a request accepted before
-    the flush leaves through the Top port any more" -/
-def flush_silences_top_full : Prop :=
-  ∀ (c : Cfg) (evs more : List Ev), (sysRun c evs).rob.flushing = true →
-    ∀ d ∈ (sysRun c (evs ++ more)).out.drop (sysRun c evs).out.length,
-      d.rspTo ∉ (sysRun c evs).rob.accepted
-
-/-- a request answered and retired into the Top port's outgoing buffer before the flush; the
-    requester takes the response after the acknowledgement -/
-def residueEvs : List Ev :=
-  [.arrive (demoReq 0 false), .tick, .memTake, .memAnswer 0 (.data [9, 9, 9, 9]), .tick, .tick,
-   .ctl ⟨true, false⟩, .tick]
-
-/-- It is false: the flush does not clear the Top port's outgoing buffer, so a response retired
-    before the flush is still handed to the requester after the acknowledgement (replayed on the
-    real ROB by `harness/c15_deep.go`). Such a request was *not* discarded — the property's flush
-    clause (discarded requests are never answered) is not affected. -/
-theorem flush_silences_top_refuted : ¬ flush_silences_top_full := by
-  intro h
-  have := h demoCfg residueEvs [.takeRsp] (by decide)
-  revert this
-  decide
-
-/-- **…and that is all that trails out.** From a point where the buffer is empty (any point in
-    the flushing state): whatever the requester takes later that answers a request accepted before
-    that point was already waiting in the Top port's outgoing buffer at that point (so at most
-    `topOutCap` such responses, all retired before the flush); every other later response answers
-    a request accepted afterwards. -/
-theorem flush_top_residue_partial (c : Cfg) (evs more : List Ev) (hempty : (sysRun c evs).rob.txs = []) :
+/-- **Nothing of the past trails out after an empty point.** From a point where the buffer is
+    empty, for every continuation: a response the requester takes later that answers a request
+    accepted before that point was already waiting in the Top port's outgoing buffer at that
+    point; every other later response answers a request accepted afterwards. -/
+theorem taken_after_empty_point (c : Cfg) (evs more : List Ev) (hempty : (sysRun c evs).rob.txs = []) :
     ∃ taken, (sysRun c (evs ++ more)).out = (sysRun c evs).out ++ taken ∧
       ∀ d ∈ taken, d.rspTo ∈ (sysRun c evs).rob.accepted → d ∈ (sysRun c evs).rob.topOut := by
   have hrun : sysRun c (evs ++ more) = more.foldl (sysStep c) (sysRun c evs) := by
     simp [sysRun, List.foldl_append]
-  obtain ⟨taken, ht⟩ := sysFold_out c more (sysRun c evs)
-  rw [← hrun] at ht
+  obtain ⟨taken, no, ht, h1, hmem⟩ := sysFold_taken c more (sysRun c evs)
+  rw [← hrun] at ht h1 hmem
   refine ⟨taken, ht, ?_⟩
   intro d hd hacc
-  have ok := sysRun_ok c evs
-  have ok' := sysRun_ok c (evs ++ more)
-  obtain ⟨no, nf, h1, _, _⟩ := served_in_order_after_restart c evs more hempty
-  -- taken ++ topOut' = topOut ++ newOut
-  have e : taken ++ (sysRun c (evs ++ more)).rob.topOut = (sysRun c evs).rob.topOut ++ no := by
-    have := ok'.outLog
-    rw [h1, ok.outLog, ht, List.append_assoc, List.append_assoc] at this
-    exact (List.append_cancel_left this).symm
-  have hmem : d ∈ (sysRun c evs).rob.topOut ++ no := by
-    rw [← e]; exact List.mem_append_left _ hd
-  rcases List.mem_append.1 hmem with hm | hm
+  rcases List.mem_append.1 (hmem d (List.mem_append_left _ hd)) with hm | hm
   · exact hm
   · exfalso
     obtain ⟨ho', _, hn', _⟩ := sys_order_once_capacity c (evs ++ more)
     obtain ⟨ho, _, _, _⟩ := sys_order_once_capacity c evs
     rw [hempty] at ho
     simp only [List.map_nil, List.append_nil] at ho
-    -- the id is not discarded later, hence not discarded now, hence already delivered now
-    have hin' : d.rspTo ∈ (sysRun c (evs ++ more)).rob.live := by
-      rw [← ho', h1]
-      exact List.mem_append_left _ (List.mem_map.2 ⟨d, List.mem_append_right _ hm, rfl⟩)
-    have hnd' : d.rspTo ∉ (sysRun c (evs ++ more)).rob.discarded := by
-      have := (List.mem_filter.1 hin').2; simpa using this
+    have hdel' : d.rspTo ∈ (sysRun c (evs ++ more)).rob.delivered.map (·.rspTo) := by
+      rw [h1]; exact List.mem_map.2 ⟨d, List.mem_append_right _ hm, rfl⟩
     have hnd : d.rspTo ∉ (sysRun c evs).rob.discarded := by
       intro hx
-      exact (sys_flush_discards c evs more).1 _ hx (by
-        rw [← ok'.outLog, h1]
-        exact List.mem_map.2 ⟨d, List.mem_append_right _ hm, rfl⟩)
+      obtain ⟨ops, later, e1, e2⟩ := closed_system_is_a_run c evs more
+      have := (flush_discards c ops later).1
+      rw [← e1, ← e2] at this
+      exact this _ hx hdel'
     have hdel : d.rspTo ∈ (sysRun c evs).rob.delivered.map (·.rspTo) := by
       rw [ho]; exact List.mem_filter.2 ⟨hacc, by simpa using hnd⟩
     have hnod : ((sysRun c evs).rob.delivered.map (·.rspTo) ++ no.map (·.rspTo)).Nodup := by
@@ -346,7 +316,50 @@ theorem flush_top_residue_partial (c : Cfg) (evs more : List Ev) (hempty : (sysR
       exact this
     exact (List.nodup_append.1 hnod).2.2 _ hdel _ (List.mem_map.2 ⟨d, hm, rfl⟩) rfl
 
-example : (sysRun demoCfg residueEvs).rob.txs = [] ∧ (sysRun demoCfg residueEvs).rob.topOut.length = 1 ∧
-    (sysRun demoCfg (residueEvs ++ [.takeRsp])).out.map (·.rspTo) = [0] := by decide
+/-- "once a flush is acknowledged, no response to a request accepted before the flush leaves
+    through the Top port any more" -/
+def flush_silences_top_full : Prop :=
+  ∀ (c : Cfg) (evs more : List Ev), (sysRun c evs).rob.flushing = true →
+    ∀ d ∈ (sysRun c (evs ++ more)).out.drop (sysRun c evs).out.length,
+      d.rspTo ∉ (sysRun c evs).rob.accepted
+
+/-- **A flush silences the Top port** (holds since repair 7c2f5a70): in the flushing state the
+    buffer and the Top port's outgoing buffer are empty, so every response the requester takes
+    from then on answers a request accepted later. -/
+theorem flush_silences_top : flush_silences_top_full := by
+  intro c evs more hf d hd hacc
+  obtain ⟨he, _, htop, _⟩ := (flushing_is_empty_and_silent c evs).1 hf
+  obtain ⟨taken, ht, hres⟩ := taken_after_empty_point c evs more he
+  rw [ht, List.drop_left] at hd
+  have := hres d hd hacc
+  rw [htop] at this
+  cases this
+
+/-- a request answered and retired into the Top port's outgoing buffer before the flush -/
+def residueEvs : List Ev :=
+  [.arrive (demoReq 0 false), .tick, .memTake, .memAnswer 0 (.data [9, 9, 9, 9]), .tick, .tick,
+   .ctl ⟨true, false⟩, .tick]
+
+example : (sysRun demoCfg (residueEvs.take 7)).rob.topOut.length = 1 ∧
+    (sysRun demoCfg residueEvs).rob.flushing = true ∧ (sysRun demoCfg residueEvs).rob.topOut = [] ∧
+    (sysRun demoCfg (residueEvs ++ [.takeRsp])).out = [] := by decide
+
+/-- the same statement for the ROB before the repair (`tickOld`, `sysRunOld`) -/
+def flush_silences_top_before_fix_full : Prop :=
+  ∀ (c : Cfg) (evs more : List Ev), (sysRunOld c evs).rob.flushing = true →
+    ∀ d ∈ (sysRunOld c (evs ++ more)).out.drop (sysRunOld c evs).out.length,
+      d.rspTo ∉ (sysRunOld c evs).rob.accepted
+
+/-- Before the repair it was false: the flush did not clear the Top port's outgoing buffer, so a
+    response retired before the flush was still handed to the requester after the
+    acknowledgement (this was replayed on the real ROB of that time by `harness/c15_deep.go`). -/
+theorem flush_silences_top_before_fix_refuted : ¬ flush_silences_top_before_fix_full := by
+  intro h
+  have := h demoCfg residueEvs [.takeRsp] (by decide)
+  revert this
+  decide
+
+example : (sysRunOld demoCfg residueEvs).rob.topOut.length = 1 ∧
+    (sysRunOld demoCfg (residueEvs ++ [.takeRsp])).out.map (·.rspTo) = [0] := by decide
 
 end C15
